@@ -19,6 +19,9 @@
 (*   ver, magic   the bytecode version <<major, minor>> and magic: they fix the *)
 (*            format parameters Par = [py3, layout, mv] (ParOf below)           *)
 (*   strict   1: the payload must be consumed to its last byte                  *)
+(*   free     1: free-running: the reader only builds the value it reads (in    *)
+(*            `built`) and reports a verdict; with cmp = 1 the built value is   *)
+(*            compared with tok at the end (used for faulty files, C11)         *)
 (* Unordered containers (set, frozenset, dict) are read in "construct mode":    *)
 (* the reader builds the element tokens from the bytes and compares them with   *)
 (* the logged elements as sets, because iteration order is not part of value.   *)
@@ -135,7 +138,8 @@ IsPending(r) == "pending" \in DOMAIN r
 
 (* ---- frames ---- *)
 Top == stack[Len(stack)]
-CM  == \E i \in 1..Len(stack) : stack[i].cm           \* construct mode: inside an unordered frame
+Free == R.free = 1                                      \* free-running reader: no logged tokens are consumed (C11: strict verdict)
+CM  == Free \/ \E i \in 1..Len(stack) : stack[i].cm   \* construct mode: inside an unordered frame, or free-running
 
 TInit == tid = 1 /\ pos = 0 /\ k = 1 /\ stack = <<>> /\ refs = <<>> /\ strtab = <<>> /\ built = <<>>
          /\ bad = <<>> /\ st = "run"
@@ -217,7 +221,13 @@ TxtKind == IF Par.py3 = 1 THEN "text" ELSE "unicode"
 
 (* ---- code objects ---- *)
 OpenCode(f) ==
-   IF CM THEN Hard("unsupported", "code object outside unordered containers", "code in set/dict")
+   IF CM /\ ~Free THEN Hard("unsupported", "code object outside unordered containers", "code in set/dict")
+   ELSE IF Free
+   THEN /\ stack' = Append(stack, [kind |-> "code", rem |-> Len(Lay), cnt |-> 0, ts |-> Len(built) + 1,
+                                   slot |-> IF f THEN Len(refs) + 1 ELSE 0, cm |-> FALSE, n |-> 0, fld |-> Lay[1]])
+        /\ built' = Append(built, T0("code"))
+        /\ refs' = IF f THEN Append(refs, Pending) ELSE refs
+        /\ pos' = pos + 1 /\ UNCHANGED <<tid, k, strtab, bad, st>>
    ELSE IF k > Len(Tok) THEN Hard("tokens", "code", "log ended")
    ELSE IF Tok[k].k # "code" THEN Hard("container", "code", Tok[k].k)
    ELSE /\ stack' = Append(stack, [kind |-> "code", rem |-> Len(Lay), cnt |-> 0, ts |-> k,
@@ -280,7 +290,9 @@ ReadObject ==
        [] c \in {cSTRING, cUNICODE, cASCII, cASCIII} ->
             IF ~LenOK(pos + 1) \/ ~Avail(5 + U32(pos + 1)) THEN Hard("eof", "string body", Len(Buf) - pos)
             ELSE LET n == U32(pos + 1) IN
-                 Deliver(TBytes(IF c = cSTRING THEN StrKind ELSE TxtKind, pos + 5, n), 5 + n, f)
+                 IF c \in {cASCII, cASCIII} /\ \E i \in 1..n : B(pos + 4 + i) >= 128
+                 THEN Hard("malformed", "ASCII bytes in TYPE_ASCII", "byte >= 128")
+                 ELSE Deliver(TBytes(IF c = cSTRING THEN StrKind ELSE TxtKind, pos + 5, n), 5 + n, f)
        [] c = cINTERNED ->
             IF ~LenOK(pos + 1) \/ ~Avail(5 + U32(pos + 1)) THEN Hard("eof", "string body", Len(Buf) - pos)
             ELSE LET n == U32(pos + 1) IN
@@ -288,6 +300,8 @@ ReadObject ==
                           IF Par.py3 = 0 THEN Append(strtab, <<pos + 5, n>>) ELSE strtab)
        [] c \in {cSASCII, cSASCIII} ->
             IF ~Avail(2) \/ ~Avail(2 + B(pos + 1)) THEN Hard("eof", "string body", Len(Buf) - pos)
+            ELSE IF \E i \in 1..B(pos + 1) : B(pos + 1 + i) >= 128       \* no conforming writer puts non-ASCII bytes in an ASCII-typed string
+                 THEN Hard("malformed", "ASCII bytes in TYPE_SHORT_ASCII", "byte >= 128")
             ELSE Deliver(TBytes(TxtKind, pos + 2, B(pos + 1)), 2 + B(pos + 1), f)
        [] c = cSTRINGREF ->
             IF ~LenOK(pos + 1) THEN Hard("eof", 5, Len(Buf) - pos)
@@ -325,6 +339,8 @@ ReadRawInt ==
   /\ stack # <<>> /\ Top.kind = "code" /\ Top.rem > 0 /\ Top.fld \in {"h", "i"}
   /\ LET w == IF Top.fld = "h" THEN 2 ELSE 4 IN
      IF ~Avail(w) THEN Hard("eof", w, Len(Buf) - pos)
+     ELSE IF Free THEN /\ built' = Append(built, TInt("int", TwosMag(pos, w))) /\ pos' = pos + w /\ stack' = Account(stack)
+                       /\ UNCHANGED <<tid, k, refs, strtab, bad, st>>
      ELSE IF k > Len(Tok) THEN Hard("tokens", "code field", "log ended")
      ELSE LET t == TInt("int", TwosMag(pos, w)) IN
           /\ bad' = IF Tok[k] = t THEN bad ELSE Append(bad, V("field", [field |-> Top.cnt + 1, value |-> t], Tok[k]))
@@ -336,24 +352,29 @@ ReadRawInt ==
 OpenLP ==
   /\ st = "run" /\ tid <= Len(Traces) /\ Len(bad) < MaxBad
   /\ stack # <<>> /\ Top.kind = "code" /\ Top.rem > 0 /\ Top.fld = "lp"
-  /\ stack' = Append(stack, [kind |-> "lp", rem |-> 2, cnt |-> 0, ts |-> 1, slot |-> 0, cm |-> TRUE, n |-> 2, fld |-> "o"])
-  /\ built' = <<>>
+  /\ stack' = Append(stack, [kind |-> "lp", rem |-> 2, cnt |-> 0, ts |-> Len(built) + 1, slot |-> 0, cm |-> TRUE, n |-> 2, fld |-> "o"])
+  /\ built' = IF Free THEN built ELSE <<>>
   /\ UNCHANGED <<tid, pos, k, refs, strtab, bad, st>>
 
 FastLocal == 32  FastCell == 64  FastFree == 128
 HasBit(x, bit) == (x \div bit) % 2 = 1
 CloseLP ==
   /\ st = "run" /\ stack # <<>> /\ Top.kind = "lp" /\ Top.rem = 0
-  /\ LET okshape == built # <<>> /\ built[1].k = "tuple" /\ Len(built) = built[1].n + 2
-                      /\ built[Len(built)].k = "bytes" /\ built[Len(built)].n = built[1].n
-     IN IF ~okshape THEN Hard("malformed", "localsplusnames tuple + kinds bytes of equal length", built)
-        ELSE LET n     == built[1].n
-                 names == [i \in 1..n |-> built[i + 1]]
-                 kinds == built[Len(built)].b
+  /\ LET lpb == SubSeq(built, Top.ts, Len(built))          \* what was read for the two localsplus objects
+         okshape == lpb # <<>> /\ lpb[1].k = "tuple" /\ Len(lpb) = lpb[1].n + 2
+                      /\ lpb[Len(lpb)].k = "bytes" /\ lpb[Len(lpb)].n = lpb[1].n
+                      /\ \A i \in 2..(Len(lpb) - 1) : lpb[i].k = "text"
+     IN IF ~okshape THEN Hard("malformed", "localsplusnames tuple of names + kinds bytes of equal length", lpb)
+        ELSE LET n     == lpb[1].n
+                 names == [i \in 1..n |-> lpb[i + 1]]
+                 kinds == lpb[Len(lpb)].b
                  sel(bit) == SelectSeq([i \in 1..n |-> [t |-> names[i], kd |-> kinds[i]]], LAMBDA x : HasBit(x.kd, bit))
                  tup(bit) == LET s == sel(bit) IN <<TCont("tuple", Len(s))>> \o [i \in 1..Len(s) |-> s[i].t]
                  want == tup(FastLocal) \o tup(FastCell) \o tup(FastFree)
-             IN IF k + Len(want) - 1 > Len(Tok) THEN Hard("tokens", "varnames/cellvars/freevars", "log ended")
+             IN IF Free THEN /\ built' = SubSeq(built, 1, Top.ts - 1) \o want
+                             /\ stack' = Account(SubSeq(stack, 1, Len(stack) - 1))
+                             /\ UNCHANGED <<tid, pos, k, refs, strtab, bad, st>>
+                ELSE IF k + Len(want) - 1 > Len(Tok) THEN Hard("tokens", "varnames/cellvars/freevars", "log ended")
                 ELSE /\ bad' = IF SubSeq(Tok, k, k + Len(want) - 1) = want THEN bad
                                ELSE Append(bad, V("field", [field |-> "varnames+cellvars+freevars", n |-> Len(want)], "differs"))
                      /\ k' = k + Len(want)
@@ -386,7 +407,7 @@ Close ==
                      /\ built' = <<>>
                      /\ stack' = Account(rest)
                      /\ UNCHANGED <<tid, pos, strtab, st>>
-        ELSE IF \E i \in 1..Len(rest) : rest[i].cm        \* nested container built in construct mode
+        ELSE IF Free \/ \E i \in 1..Len(rest) : rest[i].cm        \* nested container built in construct mode
         THEN LET b2 == IF fr.kind = "dict" THEN [built EXCEPT ![fr.ts].n = fr.cnt \div 2] ELSE built IN
              /\ refs' = IF fr.slot # 0 THEN [refs EXCEPT ![fr.slot] = [q |-> SubSeq(b2, fr.ts, Len(b2))]] ELSE refs
              /\ built' = b2
@@ -397,9 +418,10 @@ Close ==
              /\ UNCHANGED <<tid, pos, k, strtab, built, bad, st>>
 
 (* ---- end of a case ---- *)
-CaseOver == tid <= Len(Traces) /\ (st = "hard" \/ Len(bad) >= MaxBad \/ (st = "run" /\ stack = <<>> /\ k > 1))
+CaseOver == tid <= Len(Traces) /\ (st = "hard" \/ Len(bad) >= MaxBad \/ (st = "run" /\ stack = <<>> /\ (k > 1 \/ (Free /\ built # <<>>))))
 EndChecks ==
-  LET e1 == IF k # Len(Tok) + 1 THEN <<V("tokens_left", Len(Tok) + 1, k)>> ELSE <<>>
+  LET e1 == IF Free THEN (IF R.cmp = 1 /\ ~SpanEq(built, Tok) THEN <<V("value", "the value the bytes denote", "differs")>> ELSE <<>>)
+            ELSE IF k # Len(Tok) + 1 THEN <<V("tokens_left", Len(Tok) + 1, k)>> ELSE <<>>
       e2 == IF R.consumed >= 0 /\ R.consumed # pos THEN <<V("consumed", pos, R.consumed)>> ELSE <<>>
       e3 == IF R.strict = 1 /\ pos # Len(Buf) THEN <<V("trailing", Len(Buf), pos)>> ELSE <<>>
       e4 == IF \E i \in 1..Len(refs) : IsPending(refs[i]) THEN <<V("ref_pending", "all reserved slots filled", "pending")>> ELSE <<>>
